@@ -114,6 +114,12 @@ add("g.(other interface) from non-empty iface", "assert", "res = uint64(e.gi.(in
 for t in ["int","int8","int16","int32","int64","uint8","uint32","uint64"]:
     add(f"{t} / y", "divide", f"res = uint64({cv(t,'lo')} / {cv(t,'hi')})")
     add(f"{t} % y", "divide", f"res = uint64({cv(t,'lo')} % {cv(t,'hi')})")
+# divisors that are locals still holding their zero value (go/ssa turns them into the constant 0)
+for t in ["int","int8","int16","int32","int64","uint8","uint32","uint64"]:
+    add(f"{t} / zero-valued local", "divide", f"var z {t}; res = uint64({cv(t,'lo')} / z)")
+    add(f"{t} % zero-initialised local", "divide", f"z := {t}(0); res = uint64({cv(t,'lo')} % z)")
+    add(f"const {t} / zero-valued local", "divide", f"var z {t}; res = uint64({t}(7) / z)")
+    add(f"{t} / local that is zero on one path", "divide", f"var z {t}; if {cv(t,'hi')} > 0 {{ z = 3 }}; res = uint64({cv(t,'lo')} / z)")
 add("send on open or closed chan (a nil chan would block: skipped)", "chan", "if e.ch != nil { e.ch <- 1 }; res = 1")
 add("close chan", "chan", "close(e.ch); res = 1")
 add("recv from closed chan (non-blocking form)", "chan_ok", "select { case v, ok := <-e.ch: if !ok { res = uint64(v) + 50 }; default: res = 9 }")
